@@ -116,6 +116,10 @@ def run(ctx):
     rx = [job(D, g, "in", m, "sphere_out", None, s, opts=dict(o, max_fun_evals=70 if m == "det" else 90)) for D in (1, 2) for g in ("lin2", "log2")
           for m in ("det", "decl") for o in ({}, {"search_mesh_expand": 1}) for s in (seeds + [seeds[0] + 11, seeds[0] + 12] if not q else seeds + [seeds[0] + 11])]
     st = explore(rx, ["ans", "noise"], 0, sink, stats=st, name="mesh-re-expansion")
+    # (i) a target that overwrites its argument in place: the logged point must stay the point that was evaluated
+    mu = [dict(job(D, g, "in", m, "sphere_out", None, seeds[0]), mutate_arg=True) for D in (1, 2) for g in ("lin", "log", "unb", "mixed") for m in ("det", "decl")
+          if not (g == "mixed" and D == 1)]
+    st = explore(mu, ["ans", "noise"], 0, sink, stats=st, name="argument-overwritten")
     # (f) option variants
     sw = sweep_jobs(lambda D, m, o: job(D, "log2" if D == 1 else "lin", "ub", m, "sphere_out", None, seeds[0], opts=o), q)
     st = explore(sw, ["ans", "noise"], 0, sink, stats=st, name="option-variants")
